@@ -73,6 +73,12 @@ def body(led):
     py_panel.check_calc_cA(led)
     ok, _ = K.compare(real('beta') * 2, real('beta'))
     led.canary('2*beta vs beta', not ok)
+    _standin(led)
+
+
+def _standin(led):
+    from . import sparse_standin
+    sparse_standin.check(led, ['make_skew_symmetric', 'finalize_symmetric_matrix'])
 
 
 def main():
